@@ -50,6 +50,13 @@ def _make_scratch():
     atexit.register(lambda: shutil.rmtree(d, ignore_errors=True) if os.getpid() == pid else None)
 
 
+def cleanup():
+    global _SCRATCH
+    if _SCRATCH is not None and _SCRATCH_PID == os.getpid():
+        shutil.rmtree(_SCRATCH, ignore_errors=True)
+        _SCRATCH = None
+
+
 def omega_values(k):
     return 1.0 + 5.0 / (1.0 + k * k) + 0.01 * np.sin(37.0 * k)
 
@@ -245,7 +252,10 @@ def case_one(rec, c):
 def replay(rec, case):
     with warnings.catch_warnings(), np.errstate(all='ignore'):
         warnings.simplefilter('ignore')
-        case_one(rec, case)
+        try:
+            case_one(rec, case)
+        finally:
+            cleanup()
 
 
 def cases_for(dspec, every_point):
@@ -272,8 +282,11 @@ def _worker(chunk):
     rec = Rec('C12')
     with warnings.catch_warnings(), np.errstate(all='ignore'):
         warnings.simplefilter('ignore')
-        for c in chunk:
-            case_one(rec, c)
+        try:
+            for c in chunk:
+                case_one(rec, c)
+        finally:
+            cleanup()
     return rec.to_dict()
 
 
